@@ -956,6 +956,25 @@ func bigBatch(r *rand.Rand, usize, n int) []int {
 func (w *world) randomOp(r *rand.Rand, stored map[int]map[int]bool, big bool) opx {
 	sc := w.sc
 	x := r.Intn(100)
+	if len(sc.univ) > 100 && len(w.objs) > 0 && r.Intn(12) != 0 { // wide universe: churn on the FIRST graph object - add most of the universe, then remove most of what is stored, so
+		// that thousands of triples are really added and really removed on one graph object within one history
+		h := 0
+		if len(stored[h]) < len(sc.univ)/3 {
+			is := r.Perm(len(sc.univ))[:len(sc.univ)*9/10]
+			return opx{kind: "add", h: h, is: is}
+		}
+		ks := make([]int, 0, len(stored[h]))
+		for k := range stored[h] {
+			ks = append(ks, k)
+		}
+		sort.Ints(ks)
+		r.Shuffle(len(ks), func(i, j int) { ks[i], ks[j] = ks[j], ks[i] })
+		ks = ks[:len(ks)*9/10]
+		for j := 0; j < 5; j++ { // a few absent ones and duplicates
+			ks = append(ks, r.Intn(len(sc.univ)))
+		}
+		return opx{kind: "rem", h: h, is: ks}
+	}
 	if big && len(w.objs) > 0 && r.Intn(8) != 0 { // a very large batch (with repetitions) on the newest object
 		h := len(w.objs) - 1
 		n := bigSizes[r.Intn(len(bigSizes))]
@@ -995,11 +1014,6 @@ func (w *world) randomOp(r *rand.Rand, stored map[int]map[int]bool, big bool) op
 	nb := r.Intn(6)
 	if r.Intn(10) == 0 {
 		nb = 6 + r.Intn(6)
-	}
-	if len(sc.univ) > 100 && x < 68 { // wide universe: adds bring in a large part of it
-		nb = len(sc.univ)/4 + r.Intn(len(sc.univ)/2)
-	} else if len(sc.univ) > 100 {
-		nb = r.Intn(40)
 	}
 	var is []int
 	add := x < 68
@@ -1150,7 +1164,7 @@ func genHistory(seed int64, idx int, maxops int, usize int, c02, c09 bool, uptoS
 	lkDistinct = map[[3]uint64]bool{}
 	wide := idx%32 == 9 // every thirty-second history: a universe of 150..300 triples, graphs and results of hundreds
 	if wide {
-		usize = 150 + r.Intn(150)
+		usize = 250 + r.Intn(60)
 	}
 	sc := randomScenario(r, usize, wide)
 	chanCap = len(sc.univ) + 16
@@ -1162,7 +1176,7 @@ func genHistory(seed int64, idx int, maxops int, usize int, c02, c09 bool, uptoS
 		nops = 1 + r.Intn(6)
 	}
 	if wide {
-		nops = 6 + r.Intn(8)
+		nops = 16 + r.Intn(5)
 	}
 	big := idx%8 == 5 // every eighth history alternates full adds and adversarial removes of 63 .. 4097 triples
 	if big {
